@@ -12,6 +12,12 @@ for line in txt.splitlines():
         pk = re.search(r"(\./pkg/[A-Za-z0-9_/]+)", line)
         if rx and pk:
             m = (rx.group(1), pk.group(1).rstrip("/") + "/")
+            fl = []
+            if "-tags verif" in line: fl += ["-tags", "verif"]
+            if " -race" in line: fl += ["-race"]
+            t = re.search(r"-timeout[ =]+(\S+)", line)
+            if t: fl += ["-timeout", t.group(1)]
+            os.environ["DEMOFLAGS"] = " ".join(fl)
             break
 if not m:
     print("cannot parse demo header of", src); sys.exit(2)
